@@ -77,6 +77,23 @@ _reg("C20", "xsim.manager.props", "C20", "exploration", {"quick": 2400, "thoroug
      "contents, sorted definitions, dump() in its own order) must have the same digest in all of them; evaluations = program "
      "executions; distinct = distinct programs; non-trivial = the program had at least one update that triggered a task")
 REG["C20"]["cross"] = {"quick": 2, "thorough": 8}      # hash seeds per build
+_reg("C07", "xsim.table.props", "C07", "exploration", {"quick": 8000, "thorough": 300000}, {"quick": 250, "thorough": 1000},
+     ("pure",), COMPONENTS_TABLE,
+     "one case = 1-3 seeded tables (0..40 rows, index column over a 3-5 name alphabet with repetition) + a history of lookups "
+     "(t[col,row], rows.get_index, t // row, get_index_unique) interleaved with mutations (cell by position/name/name::k/tuple, whole "
+     "column item/attr style, new/deleted columns, index column replaced via pop+assign), cache warm or cold, optional torn array "
+     "writes; distinct = distinct case digest; non-trivial = the index column was mutated at least once")
+_reg("C08", "xsim.table.props", "C08", "exploration", {"quick": 8000, "thorough": 300000}, {"quick": 250, "thorough": 1000},
+     ("pure",), COMPONENTS_TABLE,
+     "one case = 1-3 seeded tables + a history of rows[...] / rows.indices[...] / rows.mask[...] with every selector form (position, "
+     "lists, masks, regex with ::count and shifts, name spans, value ranges open and closed), pairs for the composition law, on "
+     "tables that are also mutated and derived; each worker interpreter runs under its own PYTHONHASHSEED; distinct = distinct "
+     "case digest; non-trivial = at least one selection was compared with the naive selector")
+_reg("C14", "xsim.table.props", "C14", "exploration", {"quick": 8000, "thorough": 300000}, {"quick": 250, "thorough": 1000},
+     ("pure",), COMPONENTS_TABLE,
+     "one case = 1-3 seeded tables + a history of derivations (rows, cols incl. expression columns, +, *, concatenate, _copy, _t) "
+     "and column/cell assignments over a population of up to 7 live tables that may share arrays; after every op every live table "
+     "is checked; distinct = distinct case digest; non-trivial = at least one derivation produced a table")
 
 
 def driver_for(prop):
@@ -175,4 +192,29 @@ MANIFEST_TEXT = {
         design_ref="DESIGN.md 5 (C20), 3.7", note=_TB + "; float zeros compare equal regardless of sign (Cython's float*int fast path "
                    "returns 0.0 for 0.0 * -3 where the interpreter returns -0.0)",
         technique="deterministic simulation: same seeded program across build x hash-seed configurations, transcript diff"),
+    "C07": dict(
+        text="histories of lookups (t[col,row], rows.get_index, t // row, the labels of cols.get_index_unique) in every row form "
+             "(position, name, name::count, name<<k, name>>k, tuples; present/absent names; positive, negative, out-of-range counts) "
+             "interleaved with every API mutation (cell by position/name/tuple, whole column item- and attribute-style, new and "
+             "deleted columns, index column replaced via pop/del + assignment), with the name cache warm or cold before each "
+             "mutation and optional torn array writes; every answer must equal a linear scan of the CURRENT index column, absent "
+             "occurrences must raise KeyError. Tables whose index array was rewritten through another table sharing it are excluded",
+        design_ref="DESIGN.md 5 (C07), 4.2", note=_TB,
+        technique="deterministic simulation: cache-coherence over seeded update/lookup interleavings with storage faults"),
+    "C08": dict(
+        text="histories of rows[...], rows.indices[...], rows.mask[...] with every selector form and pairs of selectors on tables "
+             "that are also mutated and derived (views of views), compared with a naive reference selector (re.fullmatch IGNORECASE, "
+             "occurrence counting by scan, inclusive spans and ranges) in table order; rows[s1,s2] vs rows[s1].rows[s2]; every "
+             "worker interpreter has its own PYTHONHASHSEED, so agreement with the deterministic reference under all of them is the "
+             "hash-seed clause. The denotation itself is a pure function (see DESIGN): simulation adds the histories and the seeds",
+        design_ref="DESIGN.md 5 (C08), 4.2", note=_TB,
+        technique="deterministic simulation: selector oracle on evolving tables across hash seeds"),
+    "C14": dict(
+        text="histories of derivations (rows, cols incl. expression columns, +, *, concatenate, _copy, _t) and column/cell "
+             "assignments over up to 7 live tables that may share arrays; after every op EVERY live table must be rectangular with "
+             "all listed columns present and the index among them, a derived table must equal the model derivation (scalars "
+             "carried), a derivation (also one that raises half way) must leave every other table's length, column list and cells "
+             "untouched, and a mutation must not change another table's structure; column expressions equal element-wise evaluation",
+        design_ref="DESIGN.md 5 (C14), 4.2", note=_TB,
+        technique="deterministic simulation: stateful derivation histories with aliasing against a reference table"),
 }
